@@ -48,7 +48,14 @@ def reference(rel, qualname):
     return fn
 
 
-def compare(func, rel, qualname, **kw):
+def _raise_sig(sig):
+    conds, out, eff = sig
+    if out[0] == 'raise':
+        return (conds, ('raise', out[1]))
+    return (conds, (out[0],))
+
+
+def compare(func, rel, qualname, mode='full', **kw):
     ref = reference(rel, qualname)
     ap = [a.arg for a in func.args.args]
     rp = [a.arg for a in ref.args.args]
@@ -64,6 +71,12 @@ def compare(func, rel, qualname, **kw):
             for p in sym.Summarizer().summarize(func))
     b = set(refcmp.signature(p, **kw)
             for p in sym.Summarizer().summarize(ref))
+    if mode == 'raises':
+        # only: under which conditions does the function raise what
+        a2 = set(_raise_sig(x) for x in a)
+        b2 = set(_raise_sig(x) for x in b)
+        if a2 == b2:
+            return (not extra), extra, []
     oa = sorted(refcmp.show_sig(s) for s in a - b)
     ob = sorted(refcmp.show_sig(s) for s in b - a)
     if a != b and not oa and not ob:
@@ -72,6 +85,8 @@ def compare(func, rel, qualname, **kw):
 
 
 def check(chk, rule, repo, rel, qualname, what, **kw):
+    """kw mode='raises' compares only the raise structure (conditions and
+    exception classes), not the values returned."""
     if not repo.has_func(rel, qualname):
         chk.ob(rule, False, rel, None, key='reviewed:' + qualname,
                qualname=qualname,
